@@ -13,7 +13,16 @@
    an OK or by k leaving the list; [member h k i j] - result j is a live (not NOTFOUND) result of k, there is no OK of k in
    [i, j) and [listed_throughout h k i j]: k is on the list at every position from i to j, i.e. every refresh in between
    repeats it - j belongs to the incident opened at i, the closing OK included; [calls_at mods h j] - the Notify calls
-   made for event j ([C13_calls_at_is_run]: what [run] computes). *)
+   made for event j ([C13_calls_at_is_run]: what [run] computes).
+
+   HYPOTHESIS OF THE TIE - "responses of one group are handled one at a time".  A history is a sequence of whole steps.
+   responseLoop starts one goroutine per response; since /repo commit 01bcddb checkAndSendResponseToModules takes a
+   lock per group record, so two responses of ONE group are handled one after the other in the code itself (responses of
+   different groups touch different records: C13_groups_independent; a refresh excludes the responses of its cluster
+   through clusterGroups.Lock).  Before that commit the hypothesis was not enforced and the identity clause failed for
+   overlapping responses of one group: C13_overlap_refuted_before_fix, replayed on the real code (findings/C13.json).
+   The probe delivers a second response of the same group during the slow first Notify call of the first (step "o") on
+   every run and compares with the sequence of the two. *)
 From Coq Require Import ZArith List Bool.
 From Burrow Require Import Int64 Notifier NotifierProofs.
 Import ListNotations.
@@ -214,6 +223,20 @@ Theorem C13_relisted_opens_new_incident :
     opens h k i2 /\ incident_id mods h i2 <> incident_id mods h i.
 Proof. exact relisted_opens_new_incident. Qed.
 Print Assumptions C13_relisted_opens_new_incident.
+
+(* ---- two responses of one group in flight: the tree before the per-group lock (documentation) ---- *)
+
+(* [overlap_step]: r2 is handled from start to finish while r1 waits in the Notify call of its first module.  ERR (opening)
+   overlapped by OK: the second module is notified of the ERR result with no event id and no start time, after the close;
+   handled one after the other (the code since 01bcddb) every call of that result carries the incident's id and start. *)
+Theorem C13_overlap_refuted_before_fix :
+  exists mods g next now r1 r2 c,
+    names_distinct mods /\ g = g_init /\ resp_key r1 = resp_key r2 /\ 1 < nr_status r1 /\
+    In c (snd (fst (fst (overlap_step mods g next now r1 r2)))) /\
+    nc_good c = false /\ nc_status c = nr_status r1 /\ nc_id c = None /\ nc_start c = None /\
+    (forall c', In c' (snd (fst (group_step true mods g next now r1))) -> nc_id c' = Some next /\ nc_start c' = Some now).
+Proof. exact overlap_refuted_before_fix. Qed.
+Print Assumptions C13_overlap_refuted_before_fix.
 
 (* ---- frame ---- *)
 
